@@ -35,11 +35,11 @@ func (b bareItem) item() ap.Item {
 }
 
 type collCase struct {
-	Kind string     `json:"kind"`
-	Pool []bareItem `json:"pool"`
-	Init []int      `json:"init"`
-	Ops  [][]interface{} `json:"ops"`
-	Distinct bool   `json:"distinct"` // the pool has pairwise distinct identity (the property's premise)
+	Kind     string          `json:"kind"`
+	Pool     []bareItem      `json:"pool"`
+	Init     []int           `json:"init"`
+	Ops      [][]interface{} `json:"ops"`
+	Distinct bool            `json:"distinct"` // the pool has pairwise distinct identity (the property's premise)
 }
 
 var collKinds = []string{"ItemCollection", "IRIs", "Collection", "OrderedCollection", "CollectionPage", "OrderedCollectionPage"}
